@@ -26,10 +26,15 @@ def meta(tier, seed):
                   "graphs are identical (then all futures are) or predict / predict_expectations on the query set must be "
                   "bit-identical (count/sum and neighbourhood policies) / within 1e-9 (linear policies)",
         "bounds": {"rows_max": "4 (3 for the non-representative policies under a neighbourhood policy)" if tier == "quick" else 5, "row_alphabet": ROWS, "queries": QUERIES,
-                   "excluded_by_statement": ["TreeBandit", "scale=True"]},
+                   "excluded_by_statement": ["TreeBandit", "scale=True"],
+                   "n_jobs": "1; additionally 2 (joblib model, default schedule) for %r with up to %d rows" % (
+                       TWO_JOBS, 3 if tier == "quick" else 4)},
         "assumptions": ["a first chunk a policy cannot be fitted on (fewer rows than clusters / than k) is not a valid "
                         "training prefix: skipped and counted"],
     }
+
+
+TWO_JOBS = [("eg0", "lsh"), ("ucb", "clu"), ("ts", "rad"), ("sm", "knn"), ("lts1", "none"), ("tsb", "none"), ("lucb", "mclu")]
 
 
 def shards(tier, seed):
@@ -41,6 +46,9 @@ def shards(tier, seed):
         if tier == "quick" and nn != "none" and ln not in ("eg0", "ucb", "ts", "lucb", "lts"):
             nmax = 3            # the other policies under a neighbourhood policy: shorter sequences in the quick tier
         out.append({"ln": ln, "nn": nn, "nmax": nmax, "seed": 91 + seed})
+    # the same equivalence with the work of every call partitioned over two jobs (joblib model, default schedule)
+    for ln, nn in TWO_JOBS:
+        out.append({"ln": ln, "nn": nn, "nmax": 3 if tier == "quick" else 4, "seed": 91 + seed, "n_jobs": 2})
     return A.heavy_first(out)
 
 
@@ -107,8 +115,16 @@ def judge(cfg, ln, seq, comp, batch=None):
 
 
 def run_shard(shard):
+    if shard.get("n_jobs", 1) > 1:
+        from .. import sched
+        with sched.model():
+            return _run_shard(shard)
+    return _run_shard(shard)
+
+
+def _run_shard(shard):
     ln, nn = shard["ln"], shard["nn"]
-    cfg = A.config(ln, nn, seed=shard["seed"])
+    cfg = A.config(ln, nn, seed=shard["seed"], n_jobs=shard.get("n_jobs", 1))
     if ln == "tsb":
         cfg["lp"] = ["ThompsonSampling", {"binarizer": "bin_ge2"}]
     acc = report.Acc(ID, replay, shard)
@@ -147,5 +163,10 @@ def run_shard(shard):
 
 
 def replay(w):
+    if w["cfg"].get("n_jobs", 1) > 1:
+        from .. import sched
+        with sched.model():
+            res = judge(w["cfg"], w["ln"], [tuple(r) for r in w["seq"]], [tuple(c) for c in w["comp"]])
+        return res if isinstance(res, list) else []
     res = judge(w["cfg"], w["ln"], [tuple(r) for r in w["seq"]], [tuple(c) for c in w["comp"]])
     return res if isinstance(res, list) else []
